@@ -30,6 +30,12 @@ func units(string) []mc.Unit {
 			}
 		}
 	}
+	// the previous local exit root is an optional field of the Agglayer's certificate header: the same exploration
+	// against a service that omits it (what a node adopts from such a header has no previous LER)
+	for _, flow := range []string{"PP", "FEP"} {
+		cfg := senderkit.Cfg{Flow: flow, Retry: false, Hist: 0, Faults: true, NoPrevLER: true}
+		us = append(us, mc.Unit{Name: cfg.String(), Params: cfg})
+	}
 	return us
 }
 
@@ -106,7 +112,7 @@ func main() {
 			"nothing is claimed beyond the depth bound",
 		},
 		Bounds: func(tier string) map[string]any {
-			return map[string]any{"depth": depth(tier), "max_crash_or_fault_events_per_history": 2, "configurations": 16,
+			return map[string]any{"depth": depth(tier), "max_crash_or_fault_events_per_history": 2, "configurations": "16 + 2 with Agglayer headers that omit the previous LER",
 				"l2_histories": senderkit.HistoryNames, "fault_positions": "1..3 (a save has 1 or 3 write statements)", "MaxRetriesStoreCertificate": 2}
 		},
 	})
